@@ -44,4 +44,7 @@ func init() {
 	specs["C02"] = &PropSpec{Level: "fault_enumeration", QuickRuns: 48, ThorRuns: 1200, Wall: 120 * time.Second, MaxProcs: 2,
 		Rule:   "run = one generated committing program (1-3 branches, autocommit and explicit local transactions); it is first executed fault-free (probe), then once per single-fault position read off the probe: database error / connection loss at each statement the proxy issued (before-image select, business statement, after-image select, undo_log insert, COMMIT, BEGIN; COMMIT also applied-then-lost), registration refused / lock conflict / unanswered / connection closed for each BranchRegister, status report refused 1,2,4,5 times after a failing COMMIT; evaluation = one (program, fault position) execution; distinct = fault classes",
 		Assume: atAssume}
+	specs["C03"] = &PropSpec{Level: "exploration", QuickRuns: 150, ThorRuns: 2400, Wall: 240 * time.Second, MaxProcs: 2, Modes: []string{"mixed", "sfu", "two"},
+		Rule:   "mode mixed: invariants over generated commit/rollback runs (row diff of every committed local transaction within the lock keys the coordinator decoded for that branch; one key text per row over the run); mode sfu: generated SELECT ... FOR UPDATE statements inside a global transaction with the coordinator answering lockable / not lockable; mode two: 2-3 actors run global transactions of updates/deletes over the same 2-3 rows, every interleaving of statements, registrations and replies chosen by the tape, coordinator granting locks from its table; distinct = statement / mode signatures",
+		Assume: atAssume}
 }
